@@ -117,6 +117,8 @@ def run(ctx, rep):
             if name in CONSTRUCTORS or m.kind == "classmethod" and name.startswith("from_"):
                 continue
             callers_ = P.cg.callers_of(m.qual)
+            if name.startswith("_") and not name.startswith("__") and callers_ and all(e.kind == "expanded" for e in callers_):
+                continue  # a private helper expanded in place at every call site (second-chance normal form): analysed there
             if name.startswith("_") and not name.startswith("__") and m.kind in ("classmethod", "staticmethod") \
                     and (m.qual in P.reach or (callers_ and all(e.kind == "expanded" for e in callers_))) \
                     and not any(e.caller not in P.reach for e in callers_):
@@ -183,7 +185,18 @@ def run(ctx, rep):
                 if m.kind == "cached_property":
                     lazy.append(f"cached_property {k.name}.{name}")
                 if name not in CONSTRUCTORS and m.kind != "staticmethod":  # (a static method has no self to write to)
-                    s = ctx.summary(m)
+                    s = ctx.ev.summary(m)
+                    if s.unsupported:
+                        # outside the analysed subset (a generator method, ...): attribute stores on self are visible in the syntax
+                        import ast as _ast
+                        ps_ = m.params()
+                        for n_ in _ast.walk(m.node):
+                            if isinstance(n_, _ast.Attribute) and isinstance(n_.ctx, (_ast.Store, _ast.Del)) and ps_ and \
+                                    isinstance(n_.value, _ast.Name) and n_.value.id == ps_[0]:
+                                lazy.append(f"{k.name}.{name} assigns self.{n_.attr}")
+                            if isinstance(n_, _ast.Call) and isinstance(n_.func, _ast.Name) and n_.func.id in ("setattr", "vars"):
+                                lazy.append(f"{k.name}.{name} uses {n_.func.id}()")
+                        continue
                     for e in s.effects:
                         if e.kind in ("store_attr", "aug_attr") and e.target[0] == "self":
                             lazy.append(f"{k.name}.{name} assigns self.{e.key}")
